@@ -4,6 +4,7 @@ import (
 	"errors"
 	"io"
 	"math"
+	"math/big"
 	"regexp"
 	"strconv"
 	"strings"
@@ -501,7 +502,7 @@ func parseInt(s string, base int) (Value, error) {
 	for ; i < len(s); i++ {
 		if n >= cutoff {
 			// n*base overflows
-			return parseLargeInt(float64(n), s[i:], base, sign)
+			return parseLargeInt(s, base, sign)
 		}
 		v := digitVal(s[i])
 		if v >= base {
@@ -512,7 +513,7 @@ func parseInt(s string, base int) (Value, error) {
 		n1 := n + int64(v)
 		if n1 < n || n1 > maxVal {
 			// n+v overflows
-			return parseLargeInt(float64(n)+float64(v), s[i+1:], base, sign)
+			return parseLargeInt(s, base, sign)
 		}
 		n = n1
 	}
@@ -531,21 +532,24 @@ Error:
 	return _NaN, err
 }
 
-func parseLargeInt(n float64, s string, base int, sign bool) (Value, error) {
-	i := 0
-	b := float64(base)
-	for ; i < len(s); i++ {
-		v := digitVal(s[i])
-		if v >= base {
-			break
-		}
-		n = n*b + float64(v)
+// parseLargeInt converts the leading digits of s (a numeral in the given base that does not fit into
+// an int64) to the nearest float64. The digits are not accumulated in a float64: that would round at
+// every step.
+func parseLargeInt(s string, base int, sign bool) (Value, error) {
+	end := 0
+	for end < len(s) && digitVal(s[end]) < base {
+		end++
 	}
+	n, ok := new(big.Int).SetString(s[:end], base)
+	if !ok {
+		return _NaN, strconv.ErrSyntax
+	}
+	f, _ := new(big.Float).SetInt(n).Float64()
 	if sign {
-		n = -n
+		f = -f
 	}
 	// We know it can't be represented as int, so use valueFloat instead of floatToValue
-	return valueFloat(n), nil
+	return valueFloat(f), nil
 }
 
 var (
